@@ -384,6 +384,70 @@ theorem reach_gc_spares_label (ver : Bytes) {t : Checkpoint.Target} {c : Ctl} (h
     gc_spares_live_id t live before orders c.lab c.key d X hl G.labq G.soloLab G.ownAll⟩
 
 
+/-- **A sender session with gc passes beside it never lowers the position** (the scenario of D24): on a reachable
+    state, the wire log of a session executed piece by piece, a gc pass — any threshold, any database orders, live
+    set containing the reported ids, stopped after any number of its requests — after any piece; the next start
+    reads a position not smaller than the one the session started from. -/
+theorem reach_session_safe (ver : Bytes) {t : Checkpoint.Target} {c : Ctl} (h : Reach ver true t c) (hl : c.lab = c.mas)
+    (hup : c.up = true) (X : Int) (d : Nat) (oS : List Nat) (hoS : Lists oS t c.key)
+    (hsp : startPoint ver [c.mas, c.sec] oS t = some (some (X, d)))
+    (pc : Sender.PCfg) (sc : Sender.SCfg) (raws : List Sender.Raw) (evs : List Sender.Ev)
+    (H : LifeHyp pc sc raws X (d : Int) evs) (hhi : ∀ o ∈ Target.cpReqs (fullLog sc evs), o < 2^63)
+    (sched : List (Nat × Option GcPass)) (hok : SchedOK c.mas c.sec {} (fullLog sc evs) sched) :
+    ∃ Y d', X ≤ Y ∧ ∀ oS', d' ∈ oS' →
+      startPoint ver [c.mas, c.sec] oS' (sessionRun c.key c.mas ver {} t (fullLog sc evs) sched) = some (some (Y, d')) := by
+  obtain ⟨X0, d0, G⟩ := (reach_inv ver h).1 rfl
+  have := good_startPoint ver G oS (hoS d0 G.nonempty)
+  rw [hsp] at this
+  injection this with this; injection this with this; injection this with hX hd
+  subst hX; subst hd
+  obtain ⟨Y, d', hle, G'⟩ := good_session ver G hl (G.ctl.upk hup) pc sc raws evs H hhi sched hok
+  exact ⟨Y, d', hle, fun oS' h' => good_startPoint ver G' oS' h'⟩
+
+theorem goodChecks_names (dbs : List Nat) (keys : List Bytes) (t : Checkpoint.Target) (c : Ctl) (X : Int) (d : Nat) :
+    ∀ p ∈ goodChecks dbs keys t c X d, p.1 ≠ "" := by
+  intro p hp
+  unfold goodChecks at hp
+  simp only [List.mem_cons, List.not_mem_nil, or_false] at hp
+  rcases hp with h | h | h | h | h | h | h | h | h | h | h <;> (subst h; simp)
+
+/-- **The Bool the driver evaluates (op `c17good`) decides the invariant**: when no clause of `goodChecks` fails on
+    the dumped databases / key names, the dump is the whole state, and the ghost clauses (names / ids never used
+    do not occur) hold, the state satisfies `Good`. -/
+theorem goodChecks_decide_good {dbs : List Nat} {keys : List Bytes} {t : Checkpoint.Target} {c : Ctl} {X : Int} {d : Nat}
+    (h : firstBad (goodChecks dbs keys t c X d) = "")
+    (hdbs : ∀ db, db ∉ dbs → ∀ n, t.cps db n = []) (hkeys : ∀ n, n ∉ keys → ∀ db, t.cps db n = [])
+    (hkeyIn : c.key ∈ c.names) (hmasIn : c.mas ∈ c.ids) (hsecIn : c.sec ∈ c.ids)
+    (hnames : ∀ n, n ∉ c.names → (∀ db, t.cps db n = []) ∧ ∀ p ∈ t.hash, p.2 ≠ n)
+    (hids : ∀ ρ, ρ ∉ c.ids → (∀ db n, ∀ e ∈ t.cps db n, e.rid ≠ ρ) ∧ hlookup t.hash ρ = none)
+    (hpmem : ∀ p, c.pend = some p → p ∈ c.names) : Good t c X d :=
+  good_of_goodOn (goodChecks_sound dbs keys t c X d (firstBad_empty _ (goodChecks_names dbs keys t c X d) h))
+    hdbs hkeys hkeyIn hmasIn hsecIn hnames hids hpmem
+
+theorem bareChecks_names (dbs : List Nat) (keys : List Bytes) (t : Checkpoint.Target) (c : Ctl) :
+    ∀ p ∈ bareChecks dbs keys t c, p.1 ≠ "" := by
+  intro p hp
+  unfold bareChecks at hp
+  simp only [List.mem_cons, List.not_mem_nil, or_false] at hp
+  rcases hp with h | h | h | h | h | h | h <;> (subst h; simp)
+
+/-- the same for the position-less states (op `c17bare`) -/
+theorem bareChecks_decide_bare {dbs : List Nat} {keys : List Bytes} {t : Checkpoint.Target} {c : Ctl}
+    (h : firstBad (bareChecks dbs keys t c) = "")
+    (hdbs : ∀ db, db ∉ dbs → ∀ n, t.cps db n = []) (hkeys : ∀ n, n ∉ keys → ∀ db, t.cps db n = [])
+    (hkeyIn : c.key ∈ c.names) (hmasIn : c.mas ∈ c.ids) (hsecIn : c.sec ∈ c.ids)
+    (hnames : ∀ n, n ∉ c.names → (∀ db, t.cps db n = []) ∧ ∀ p ∈ t.hash, p.2 ≠ n)
+    (hids : ∀ ρ, ρ ∉ c.ids → (∀ db n, ∀ e ∈ t.cps db n, e.rid ≠ ρ) ∧ hlookup t.hash ρ = none) : Bare t c :=
+  bare_of_checks (firstBad_empty _ (bareChecks_names dbs keys t c) h) hdbs hkeys hkeyIn hmasIn hsecIn hnames hids
+
+/-- `UpdateCheckpoint` with the database order of its clean-up modelled (DelCheckpoints: all records read first, an
+    unreadable one aborts, then ascending (offset, mtime, db): Model/BookSys.lean `updateReqsReal`, what op `c17u`
+    compares the real requests with) issues a PREFIX of `updateReqs` for some order `o2` — the statements above, for
+    every order and every prefix, cover it. -/
+theorem update_real_is_prefix (ver : Bytes) (t : Checkpoint.Target) (loc : Bytes) (ids : List Bytes) (o1 order : List Nat)
+    (now : Int) : ∃ o2 k, updateReqsReal ver t loc ids o1 order now = (updateReqs ver t loc ids o1 o2 now).take k :=
+  updateReqsReal_prefix ver t loc ids o1 order now
+
 /-! ### non-vacuity: reachable states, and the statements on them
 
   ids "a" (first master), "b" (master after a failover), second id "0"; key "c"; version "1".
